@@ -593,9 +593,9 @@ _FLIGHT: Dict[str, Any] = {}
 
 def flight_server() -> Any:
     if "srv" not in _FLIGHT:
-        from mloda.core.runtime.flight.runner_flight_server import ParallelRunnerFlightServer
+        from harness.flight import start_private_flight_server
 
-        _FLIGHT["srv"] = ParallelRunnerFlightServer()
+        _FLIGHT["srv"] = start_private_flight_server()
     return _FLIGHT["srv"]
 
 
